@@ -1088,6 +1088,7 @@ namespace adept {
     if (offdiag >= 0) {
       Index new_dim = std::min(dims[0], dims[1]-offdiag);
       Array<1,Type,E::is_active> v(new_dim);
+      ADEPT_ACTIVE_STACK->check_space(E::n_active * new_dim);
       for (int j = 0; j < new_dim; ++j) {
 	i[0] = j;
 	i[1] = j+offdiag;
@@ -1100,6 +1101,7 @@ namespace adept {
     else {
       Index new_dim = std::min(dims[0]+offdiag, dims[1]);
       Array<1,Type,E::is_active> v(new_dim);
+      ADEPT_ACTIVE_STACK->check_space(E::n_active * new_dim);
       for (int j = 0; j < new_dim; ++j) {
 	i[0] = j;
 	i[1] = j+offdiag;
